@@ -5,14 +5,73 @@ import os
 
 HERE = os.path.dirname(os.path.abspath(__file__))
 
+TRUST = ("Trusted: reference TLS/QUIC peer models (validated on 30 real captures / RFC 9001 vectors), the strict output "
+         "reader/reassembler, fork-server run == CLI run (sampled in C18). Sampling, not proof.")
+
 CLAIMED = {
     # id: (level, technique, text, note, design_ref)
     "C01": ("exploration", "deterministic simulation: seeded search over simulated TLS peers x histories x segmentations, ground-truth oracle",
             "Seeded search over simulated worlds: reference TLS peers (all 5 versions, all 207 table suites valid for the version, "
             "handshake shapes, record histories, segmentations) produce captures with known plaintext; the real TLExport run must export "
-            "exactly the bytes each endpoint sent. Sampling, not proof.",
-            "Trusted: reference TLS model (validated on 30 real captures), strict output reader/reassembler, fork-server == CLI.",
-            "DESIGN.md section 5 C01"),
+            "exactly the bytes each endpoint sent.", TRUST, "DESIGN.md section 5 C01"),
+    "C02": ("exploration", "deterministic simulation: seeded search over simulated QUIC peers (packet protection, frames, key updates, UDP loss/dup/reorder), ground-truth oracle",
+            "Seeded search over simulated QUIC v1 connections (4 suites, CID lengths 0..20, PN lengths, coalescing, frame mixes, CRYPTO "
+            "ordering, Retry, 0-RTT, NEW_CONNECTION_ID, key updates) over a simulated UDP path; the exported non-empty datagrams must equal, "
+            "in capture order, the STREAM data of each captured datagram.", TRUST, "DESIGN.md section 5 C02"),
+    "C03": ("fault_enumeration", "deterministic simulation with fault injection: single-fault enumeration (packet loss, capture start/stop, key-line subsets, wrong secrets, bit flips, foreign traffic) against a fault-free baseline",
+            "For each simulated world with a victim flow and healthy bystanders, single faults from the property's list are enumerated "
+            "(sampled in quick, exhaustive per capture in thorough); the run must not fail, bystander flows must be byte-identical to the "
+            "fault-free export, and for information-removing faults the victim exports at most a prefix of its true plaintext.", TRUST,
+            "DESIGN.md section 5 C03"),
+    "C04": ("exploration", "deterministic simulation: seeded scheduler interleaves N simulated connections; mixed export == union of solo exports",
+            "The simulated scheduler merges the packet sequences of 2-6 connections with colliding endpoints under several interleaving "
+            "policies; every flow of the mixed export must equal (bytes and timestamps) the export of that connection alone.", TRUST,
+            "DESIGN.md section 5 C04"),
+    "C05": ("exploration", "deterministic simulation with fault injection: simulated TCP path (cut points, duplicates, bounded reordering, ISN wrap) vs canonical delivery; record-handler probe; exhaustive cut-set sweep for a short stream",
+            "One byte stream per direction delivered under many simulated network plans; exports must equal the canonical delivery's and "
+            "the record handler must see exactly the stream's records with the overlapping packets; all cut sets of a short 2-record "
+            "stream are swept exhaustively.", TRUST + " One residual is a recorded known finding (KF-1).", "DESIGN.md section 5 C05"),
+    "C06": ("exploration", "deterministic simulation with fault injection: mixed healthy/faulty/foreign/empty worlds x option combinations, output judged by an independent strict pcapng reader, frame parser and TCP reassembler",
+            "Every output of a mixed battery (healthy, faulty, foreign-only and empty worlds, random option combinations, n x k sweep) "
+            "must pass an independent strict reader, frame parser (lengths, checksums) and TCP reassembler (handshake, gap-free "
+            "sequence space, consistent ACKs) and the per-record re-splitting bound.", TRUST, "DESIGN.md section 5 C06"),
+    "C07": ("exploration", "deterministic simulation: provenance oracle from the simulated tap log (who sent what when, incl. duplicates, reordering, clock steps)",
+            "Every exported packet is traced back to the simulated connection and to the tap frames of the record/datagram it carries: "
+            "MAC/IP/port/direction and timestamp must come from there; the tap clock makes steps and ties.", TRUST,
+            "DESIGN.md section 5 C07"),
+    "C08": ("fault_enumeration", "deterministic simulation with fault injection: capture process crash at every packet position, prefix monotonicity oracle",
+            "The simulated capture process is stopped after packet k for every k (sampled stride for long captures in quick); each prefix "
+            "export must be a per-flow prefix of the full export and of the ground truth, and never retract earlier data.", TRUST,
+            "DESIGN.md section 5 C08"),
+    "C09": ("exploration", "deterministic simulation: key-channel seam varied (ordering, batching into DSBs, decoration) with byte-identical-output oracle",
+            "The simulated key channel delivers the same secrets in ~10 ways (file permutations/decorations/CRLF/upper-case, DSBs before "
+            "or between packets, DSB only without -s from another cwd, file+DSB); output bytes must equal the baseline's.", TRUST,
+            "DESIGN.md section 5 C09"),
+    "C10": ("exploration", "deterministic simulation: configuration swarm (-p / -m) over simulated worlds with servers on listed and unlisted ports",
+            "Worlds with TLS/QUIC servers on default, -p-selected and unlisted ports under random -p/-m options; a flow must be exported "
+            "iff its server port is selected, with the documented server port and unchanged client port.", TRUST,
+            "DESIGN.md section 5 C10"),
+    "C11": ("fault_enumeration", "deterministic simulation with fault injection: wire corruption of chosen packet subsets with checksum arithmetic steered through fold boundaries; -c export vs filtered capture",
+            "Subsets of packets are corrupted (checksum field or payload bit); export with -c must be byte-identical to the export "
+            "without -c of the capture minus those packets; free header fields steer sums through carry/fold boundaries.", TRUST,
+            "DESIGN.md section 5 C11"),
+    "C12": ("exploration", "deterministic simulation: tap storage seam varied (pcapng LE/BE, resolutions, offsets, extra blocks, legacy pcap) with byte-identical-output oracle",
+            "The same simulated frames and timestamps written in ~12 container variants must give byte-identical exports.", TRUST,
+            "DESIGN.md section 5 C12"),
+    "C13": ("exploration", "deterministic simulation: differential run with/without -a over simulated TLS and QUIC worlds",
+            "Each simulated world is exported with and without -a; application-data packets must be a subsequence, Hello records verbatim, "
+            "QUIC stream data preserved in order.", TRUST, "DESIGN.md section 5 C13"),
+    "C15": ("exploration", "deterministic simulation: reference model checked operation by operation via harness-side probes at every key installation event",
+            "Key material the real code installs (TLS incl. MAC keys and TLS 1.3 key switch; QUIC initial/handshake/0-RTT/1-RTT/HP/key "
+            "update generations) is compared with the simulated peers' independently derived keys for every (version, suite) pair.",
+            TRUST, "DESIGN.md section 5 C15"),
+    "C16": ("exploration", "deterministic simulation with fault injection: simulated UDP path loses/duplicates/reorders QUIC datagrams, senders skip packet numbers at window boundaries, randomised initial state; probe vs RFC 9000 A.3 reference",
+            "Packet-number histories under loss, duplication, reordering and sender skips (and randomised initial largest values up to "
+            "2^62) are replayed; every reconstruction the real code performs must equal RFC 9000 A.3 applied to the same largest/"
+            "truncated/length, per space and direction.", TRUST, "DESIGN.md section 5 C16"),
+    "C18": ("exploration", "deterministic simulation: the same world exported under different hash seeds, environments, working directories, in-process repetition and a real CLI subprocess",
+            "Same simulated world exported by interpreters with PYTHONHASHSEED 0-3, other cwd/env, twice in one process, after another "
+            "world, and by `python -m tlexport.main`; sha256 of outputs must be equal.", TRUST, "DESIGN.md section 5 C18"),
 }
 
 NOT_YET = {}
